@@ -14,5 +14,6 @@ Ys(v) == CASE v.t = "Point" -> <<v.c[2]>>
 NoBound(v) == v.t # "Bound" /\ (v.t = "Collection" => \A i \in 1..Len(v.g) : v.g[i].t # "Bound" /\ (v.g[i].t = "Collection" => \A j \in 1..Len(v.g[i].g) : v.g[i].g[j].t # "Bound"))
 OnceInOrder == (g.t # "nil" /\ NoBound(g)) => LET m == MapV(g, 1) IN
                   /\ m[1].t = g.t
-                  /\ Ys(m[1]) = [i \in 1..(m[2] - 1) |-> i]
+                  \* the call number is the hundreds of the image's second coordinate (2x + y < 100 on the shape set)
+                  /\ [i \in 1..Len(Ys(m[1])) |-> Ys(m[1])[i] \div 100] = [i \in 1..(m[2] - 1) |-> i]
 =============================================================================
